@@ -148,12 +148,17 @@ def _settled(ctx: Ctx, c: Collector) -> None:
         if w[4] != "first":
             pr.append("the two waits are not raced with FIRST_COMPLETED semantics: both must complete")
         tgt = kwarg(w[0], "target", 0)
-        want = ("ifexp", heap, h0, ("op", "+", call(T.glob("mosaik.tiered_time.TieredTime"), until), ("attr", sim, "from_world_time")))
-        if tgt != want:
-            if tgt is not None and tgt[0] == "ifexp" and tgt[1] == heap and tgt[2] == h0:
-                pr.append(f"with an empty heap it waits for {T.show(tgt[3])} instead of TieredTime(until) + from_world_time")
-            else:
-                pr.append(f"awaited time is {T.show(tgt)[:120]}")
+        U = ("op", "+", call(T.glob("mosaik.tiered_time.TieredTime"), until), ("attr", sim, "from_world_time"))
+        # the awaited time must be bounded by the end of the simulation: the progress never exceeds
+        # TieredTime(until) + from_world_time, so a wait for a later time is never released
+        bounded = _bounded_target(tgt, heap, h0, U)
+        if bounded is None:
+            pr.append(f"awaited time is {T.show(tgt)[:120]}")
+        elif bounded == "unbounded":
+            pr.append("with a scheduled step it waits for next_steps[0] itself, which may lie after until (a step triggered for a time after the end): "
+                      "the progress is capped at TieredTime(until) + from_world_time, so this wait can never be released")
+        elif bounded == "empty-wrong":
+            pr.append(f"with an empty heap it waits for {T.show(tgt[3])[:80]} instead of TieredTime(until) + from_world_time")
         kw = dict(w[3].term[3])
         if kw.get("timeout") != ("attr", world, "rt_factor"):
             pr.append("the wait does not time out with world.rt_factor (real-time polling)")
@@ -179,6 +184,31 @@ def _settled(ctx: Ctx, c: Collector) -> None:
         if not okrt:
             pr.append("in real-time mode the progress is not advanced after each wake-up")
     c.add("wait", SETTLED, "race progress vs newer_step", VIOLATED if pr else DISCHARGED, "; ".join(pr), loc)
+
+
+def _bounded_target(tgt: Optional[Term], heap: Term, h0: Term, U: Term) -> Optional[str]:
+    if tgt is None:
+        return None
+    def is_min_h0_U(t: Term) -> bool:
+        return t[0] == "agg" and t[1] == "min" and sorted(repr(x[1]) for x in t[2][1] if not x[2] and not x[3]) == sorted([repr(h0), repr(U)]) and len(t[2][1]) == 2
+    if tgt[0] == "ifexp" and tgt[1] == heap:
+        if tgt[3] != U:
+            return "empty-wrong"
+        if tgt[2] == h0:
+            return "unbounded"
+        if is_min_h0_U(tgt[2]):
+            return "ok"
+        return None
+    if tgt[0] == "agg" and tgt[1] == "min":
+        els = tgt[2][1]
+        has_u = any(x[1] == U and not x[2] and not x[3] for x in els)
+        has_h = any(x[1] == h0 and [T.guard_term(g) for g in x[2]] == [heap] and not x[3] for x in els)
+        if has_u and has_h and len(els) == 2:
+            return "ok"
+        return None
+    if tgt == U:
+        return None
+    return None
 
 
 def _notify(ctx: Ctx, c: Collector) -> None:
